@@ -121,7 +121,8 @@ struct is_elements_printer
     os << " range is {";
     const char* sep = "";
     const auto print = [&](const auto& v) {
-      os << std::exchange(sep, ", ") << v;
+      os << std::exchange(sep, ", ");
+      ::trompeloeil::print(os, v);
       return 0;
     };
     trompeloeil::ignore(std::initializer_list<int>{
@@ -169,7 +170,8 @@ struct is_range_printer{
     os << " range is {";
     const char* sep = " ";
     for (auto& c : cs) {
-      os << std::exchange(sep, ", ") << c;
+      os << std::exchange(sep, ", ");
+      ::trompeloeil::print(os, c);
     }
     os << " }";
   }
@@ -234,7 +236,8 @@ struct is_permutation_elements_printer
     os << " range is permutation of {";
     const char* sep = "";
     const auto print = [&](const auto& v) {
-      os << std::exchange(sep, ", ") << v;
+      os << std::exchange(sep, ", ");
+      ::trompeloeil::print(os, v);
       return 0;
     };
     trompeloeil::ignore(std::initializer_list<int>{
@@ -299,7 +302,8 @@ struct is_permutation_range_printer {
     const char* sep = " ";
     for (const auto& v : c)
     {
-      os << std::exchange(sep, ", ") << v;
+      os << std::exchange(sep, ", ");
+      ::trompeloeil::print(os, v);
     };
 
     os << " }";
@@ -363,7 +367,8 @@ struct includes_elements_printer
     os << " range has {";
     const char* sep = "";
     const auto print = [&](const auto& v) {
-      os << std::exchange(sep, ", ") << v;
+      os << std::exchange(sep, ", ");
+      ::trompeloeil::print(os, v);
       return 0;
     };
     trompeloeil::ignore(std::initializer_list<int>{
@@ -432,7 +437,8 @@ struct includes_range_printer
     os << " range has {";
     const char* sep = " ";
     for (const auto& v : elements) {
-      os << std::exchange(sep, ", ") << v;
+      os << std::exchange(sep, ", ");
+      ::trompeloeil::print(os, v);
     };
     os << " }";
   }
@@ -624,7 +630,8 @@ struct starts_with_elements_printer
     const char* sep = "";
     const auto print = [&](const auto& v)
     {
-      os << std::exchange(sep, ", ") << v;
+      os << std::exchange(sep, ", ");
+      ::trompeloeil::print(os, v);
       return 0;
     };
     trompeloeil::ignore(std::initializer_list<int>{
@@ -677,7 +684,8 @@ struct starts_with_range_printer{
     os << " range starts with {";
     const char* sep = " ";
     for (const auto& v : elements) {
-      os << std::exchange(sep, ", ") << v;
+      os << std::exchange(sep, ", ");
+      ::trompeloeil::print(os, v);
     }
     os << " }";
 
@@ -741,7 +749,8 @@ struct ends_with_printer
     const char *sep = "";
     const auto print = [&](const auto &v)
     {
-      os << std::exchange(sep, ", ") << v;
+      os << std::exchange(sep, ", ");
+      ::trompeloeil::print(os, v);
       return 0;
     };
     trompeloeil::ignore(std::initializer_list<int>{(print(elements))...});
@@ -801,7 +810,8 @@ struct ends_with_range_printer{
     os << " range ends with {";
     const char *sep = " ";
     for (const auto& e : elements) {
-      os << std::exchange(sep, ", ") << e;
+      os << std::exchange(sep, ", ");
+      ::trompeloeil::print(os, e);
     };
     os << " }";
   }
